@@ -97,6 +97,23 @@ pub enum Op {
     /// second handle while one is in use, both are used and then either the old (true) or the new
     /// (false) one is dropped.
     Resolve(u16, u16, bool),
+    /// Map item: `update_map` of `n` distinct 5-byte keys `F || index(be32)` for index in 0..n (equal
+    /// length, so consecutive indices are consecutive in RocksDB key order too); value = index(le16)
+    /// plus the tag byte. Value item: one `put_value`. (item, n, tag)
+    Fill(u16, u16, u8),
+    /// Map item: point `remove_map` of the keys `F || index` for index in from..from+n, present or not
+    /// (a map used as a FIFO queue). Value item: `delete_value`. (item, from, n)
+    RemoveRun(u16, u16, u16),
+}
+
+pub fn bulk_key(index: u32) -> Vec<u8> {
+    let mut k = vec![b'F'];
+    k.extend_from_slice(&index.to_be_bytes());
+    k
+}
+
+pub fn bulk_val(index: u32, tag: u8) -> Vec<u8> {
+    vec![index as u8, (index >> 8) as u8, tag]
 }
 
 #[derive(Clone, Debug, Serialize, Deserialize)]
@@ -203,6 +220,18 @@ impl M {
                 m.remove(&k.0);
             }
             (M::Map(m), Op::Clear(..)) => m.clear(),
+            (M::Val(v), Op::Fill(_, _, tag)) => *v = Some(vec![*tag]),
+            (M::Val(v), Op::RemoveRun(..)) => *v = None,
+            (M::Map(m), Op::Fill(_, n, tag)) => {
+                for i in 0..*n as u32 {
+                    m.insert(bulk_key(i), bulk_val(i, *tag));
+                }
+            }
+            (M::Map(m), Op::RemoveRun(_, from, n)) => {
+                for i in *from as u32..*from as u32 + *n as u32 {
+                    m.remove(&bulk_key(i));
+                }
+            }
             _ => {}
         }
     }
@@ -400,6 +429,73 @@ fn arb_prealloc() -> impl Strategy<Value = u16> {
 pub fn arb_case() -> impl Strategy<Value = Case> {
     (arb_agents(4), arb_prealloc(), proptest::collection::vec(arb_op(1, true), 1..48))
         .prop_map(|(agents, prealloc, ops)| Case { agents, prealloc, ops })
+}
+
+fn arb_fill_size() -> impl Strategy<Value = u16> {
+    prop_oneof![
+        3 => 60u16..=70,
+        2 => 1u16..=300,
+        3 => 2030u16..=2080,
+        2 => 4080u16..=4120,
+        2 => 1u16..=6000,
+        1 => 5000u16..=6000,
+    ]
+}
+
+/// Size regime that the pools never reach: one map item (the first item of the first agent) is filled
+/// with up to 6000 entries and then has a consecutive run of keys removed one by one, or is cleared,
+/// in the middle of an ordinary history. 1 model case in 12 is of this kind.
+pub fn arb_bulk_case() -> impl Strategy<Value = Case> {
+    (
+        arb_agents(3),
+        proptest::collection::vec(arb_op(1, true), 0..5),
+        arb_fill_size(),
+        any::<u8>(),
+        proptest::collection::vec(arb_op(1, true), 0..3),
+        // what happens to the filled map: (kind, from, run length selector)
+        (0u8..8, prop_oneof![3 => Just(0u16), 1 => 0u16..40, 1 => any::<u16>()], any::<u16>(), 0u8..6),
+        proptest::collection::vec(arb_op(1, true), 0..6),
+        any::<bool>(),
+    )
+        .prop_map(|(mut agents, pre, n, tag, mid, (kind, from, msel, mkind), post, reopen)| {
+            agents[0].items[0].map = true;
+            let mut ops = pre;
+            ops.push(Op::Fill(0, n, tag));
+            ops.extend(mid);
+            let from = from % n.max(1);
+            let room = n - from;
+            let m = match mkind {
+                0 => room,
+                1 => room.saturating_sub(1),
+                2 => 2030 + msel % 50,
+                3 => 4080 + msel % 40,
+                4 => room / 2,
+                _ => msel % (room + 1),
+            };
+            match kind {
+                0..=4 => ops.push(Op::RemoveRun(0, from, m)),
+                5 | 6 => ops.push(Op::Clear(0)),
+                _ => {
+                    // FIFO: remove the head, append nothing, remove again
+                    ops.push(Op::RemoveRun(0, from, m / 2));
+                    ops.push(Op::RemoveRun(0, from + m / 2, m - m / 2));
+                }
+            }
+            if reopen {
+                ops.push(Op::ReopenAll);
+            }
+            ops.push(Op::Read(0, B(vec![])));
+            ops.extend(post);
+            Case { agents, prealloc: 0, ops }
+        })
+}
+
+/// The strategy of the two model sub-checks.
+pub fn arb_model_case() -> impl Strategy<Value = Case> {
+    prop_oneof![
+        11 => arb_case(),
+        1 => arb_bulk_case(),
+    ]
 }
 
 /// Histories for the kill sub-check: more items (every first use of an item allocates an id, which is
